@@ -381,8 +381,25 @@ def _gen(case, rec, rng):
         nl_, el, vl = gen.nr_eval(ksl, dm)
         fl = cap.features()
         cap.release()
+        f_reuse = None
+        if model.settings.has_nldf and model.settings.has_sdmx:
+            # a user scanning lambda with ONE calculator: the integrator that has seen the unscaled molecule is handed the
+            # scaled one (both nonlocal generators have to follow the molecule); its SDMX block must be that of a fresh
+            # calculator (the NLDF block depends on the un-scaled cut-offs of this integrator and is not compared)
+            cap = _Capture(ks1)
+            ni1 = ks1._numint
+            (ni1.nr_rks if nspin == 1 else ni1.nr_uks)(mol_l, ksl.grids, ks1.xc, dm)
+            f_reuse = cap.features()
+            cap.release()
     finally:
         nc.aug_etb_for_cider = orig_aug
+    if f_reuse is not None:
+        nm = _feature_names(model.settings)
+        cols = [k for k, x in enumerate(nm) if x.startswith("sdmx")]
+        wk = ksl.grids.weights != 0
+        a, b = fl[:, cols][..., wk], f_reuse[:, cols][..., wk]
+        rec.check("reused_integrator_follows_scaled_molecule", float(np.max(np.abs(a - b))) / max(float(np.max(np.abs(a))), 1e-300), 1e-9,
+                  mechanism="scaled-system:reused-integrator[sdmx-block]", detail={"lam": lam, "family": fam})
     v1, vl = np.asarray(v1), np.asarray(vl)
     rec.check("nelec_preserved", float(np.max(np.abs(np.atleast_1d(nl_) - np.atleast_1d(n1)))) / float(np.max(np.abs(np.atleast_1d(n1)))), 1e-12,
               mechanism="scaled-system:nelec")
